@@ -44,6 +44,14 @@ func genRoutingCase(t *rapid.T, adversarial bool) RoutingCase {
 		}
 		c.Extra["entity_handlers"] = 1
 	}
+	if rapid.IntRange(0, 5).Draw(t, "defaultrequestct") == 0 {
+		// DefaultRequestContentType is what ReadEntity falls back to; route selection is no
+		// business of it
+		if c.Extra == nil {
+			c.Extra = map[string]int64{}
+		}
+		c.Extra["default_request_ct"] = int64(1 + rapid.IntRange(0, len(gen.MediaPool)-1).Draw(t, "defaultrequestctwhich"))
+	}
 	if rapid.IntRange(0, 2).Draw(t, "viaserve") == 0 {
 		// through ServeHTTP: net/http's mux sits in front (pattern registration, path cleaning)
 		c.Via = harness.ViaServe
@@ -63,6 +71,9 @@ func buildRouting(c RoutingCase, rec *harness.Recorder, nContainerFilters int) (
 		// the route functions answer with WriteEntity: whatever Accept header the router let
 		// through also reaches the entity writer's parser
 		opt.Handler = harness.EntityHandler
+	}
+	if v := c.Extra["default_request_ct"]; v > 0 {
+		restful.DefaultRequestContentType(gen.MediaPool[int(v-1)%len(gen.MediaPool)])
 	}
 	return buildWith(c.Table, opt, rec, c.Via != harness.ViaServe)
 }
